@@ -88,7 +88,7 @@ func dirHashes(dir string) map[string]string {
 
 func TestC11(t *testing.T) {
 	st := statsFor("C11")
-	st.Rule = "a database is built by a generated history under a generated configuration and closed; then a generated fault set is applied from outside: remove object files, add valid object files under fresh uuids (not conflicting on unique paths), remove index entries consistently from schema.json, remove schema.json, make one index internally inconsistent (drop a tuple from one field index only; swap two tuples of different value; index one object twice and its neighbour not at all), plus two harmless shapes: a backup copy '<uuid><ext>.bak' next to an object file, an object file replaced by a symbolic link to a regular file. Objects may carry value-changing Transform hooks (after Repair the index must reflect what the files hold). Added files are half of the time written the way another tool would (indented, extra unknown member) so that a Repair that rewrites files changes bytes; caller-style uuids (upper-case, non-v4) are used. Oracle: expected divergence computed from sets (uuid-named files vs. object-ids in schema.json). First load and Control report ErrIndexCorrupted iff the sets differ (some error if an index is internally inconsistent; nil on a healthy database of every configuration); Repair returns nil, leaves every object file byte-identical and creates/removes none; afterwards Control is nil and Count, All, Get and a search sweep (every operator x stored values and neighbours on every indexed path) equal predicates evaluated on the decoded file contents; after Close and reopen Control is still nil. Removed schema: Create reports corruption iff files exist, then Repair as above. Non-trivial: fault set with >= 2 kinds, or a cancelling pair, or a boundary shape (all files gone, only extra files, empty collection). Distinct by program hash."
+	st.Rule = "a database is built by a generated history under a generated configuration and closed; then a generated fault set is applied from outside: remove object files, add valid object files under fresh uuids (not conflicting on unique paths), remove index entries consistently from schema.json, remove schema.json, make one index internally inconsistent (drop a tuple from one field index only; swap two tuples of different value (the first and the last, or two neighbours - mostly the last two); index one object twice and its neighbour not at all), plus two harmless shapes: a backup copy '<uuid><ext>.bak' next to an object file, an object file replaced by a symbolic link to a regular file. Objects may carry value-changing Transform hooks (after Repair the index must reflect what the files hold). Added files are half of the time written the way another tool would (indented, extra unknown member) so that a Repair that rewrites files changes bytes; caller-style uuids (upper-case, non-v4) are used. Oracle: expected divergence computed from sets (uuid-named files vs. object-ids in schema.json). First load and Control report ErrIndexCorrupted iff the sets differ (some error if an index is internally inconsistent; nil on a healthy database of every configuration); Repair returns nil, leaves every object file byte-identical and creates/removes none; afterwards Control is nil and Count, All, Get and a search sweep (every operator x stored values and neighbours on every indexed path) equal predicates evaluated on the decoded file contents; after Close and reopen Control is still nil. Removed schema: Create reports corruption iff files exist, then Repair as above. Non-trivial: fault set with >= 2 kinds, or a cancelling pair, or a boundary shape (all files gone, only extra files, empty collection). Distinct by program hash."
 	st.Assumptions = baseAssumptions()
 	prof := &Profile{
 		Property: "C11", MaxOps: pick(8, 18),
@@ -102,7 +102,7 @@ func TestC11(t *testing.T) {
 		prog := g.Program()
 		var faults []Fault
 		n := g.uni(6, "nfaults")
-		kinds := []string{"rmfile", "rmfile", "rmfile", "addfile", "addfile", "rmentry", "rmentry", "rmschema", "drop1", "swap", "dup1", "rmfile+entry", "rmallfiles", "sibling", "tosymlink"}
+		kinds := []string{"rmfile", "rmfile", "rmfile", "addfile", "addfile", "rmentry", "rmentry", "rmschema", "drop1", "swap", "dup1", "rmfile+entry", "rmallfiles", "sibling", "tosymlink", "swapadj", "swapadj"}
 		for i := 0; i < n; i++ {
 			f := Fault{K: pickU(g, kinds, "faultkind"), Ref: g.uni(64, "fref")}
 			if f.K == "addfile" {
@@ -306,7 +306,7 @@ func caseC11(t TB, prog *Program) {
 				schemaRemoved = true
 				kinds["rmschema"] = true
 			}
-		case "drop1", "swap", "dup1":
+		case "drop1", "swap", "dup1", "swapadj":
 			if schemaRemoved {
 				continue
 			}
@@ -321,7 +321,23 @@ func caseC11(t TB, prog *Program) {
 			}
 			fi := fields[names[f.Ref%len(names)]].(map[string]interface{})
 			tuples, _ := fi["index"].([]interface{})
-			if f.K == "dup1" {
+			if f.K == "swapadj" {
+				// two neighbours of different value exchanged - at the tail of the index two times
+				// out of three, anywhere otherwise: the order is wrong in exactly one place
+				if len(tuples) < 2 {
+					continue
+				}
+				k := len(tuples) - 2
+				if f.Ref%3 == 2 {
+					k = (f.Ref / 3) % (len(tuples) - 1)
+				}
+				a, b := tuples[k].([]interface{}), tuples[k+1].([]interface{})
+				if fmt.Sprint(a[0]) == fmt.Sprint(b[0]) {
+					continue
+				}
+				tuples[k], tuples[k+1] = tuples[k+1], tuples[k]
+				inconsistent = true
+			} else if f.K == "dup1" {
 				// size-preserving: one object indexed twice, its neighbour not at all
 				if len(tuples) < 2 {
 					continue
